@@ -7,6 +7,7 @@ CONSTANTS
   Places = {"global"}
   Derive = TRUE
   Pair = FALSE
+  Threads = FALSE
   Defects = {"shared_stack"}
   EmitCases = FALSE
 INVARIANTS InvFaithful
